@@ -231,7 +231,10 @@ def run_case(inp):
     mask = aa.Mask2D(mask=ma, pixel_scales=1.0)
     nontrivial = nun >= 2 and sum(1 for r in K for v in r if v != 0) > 1
     base = {"kind": op, "nontrivial": nontrivial}
+    decoy = lambda: call_res(aa.Convolver, mask=aa.Mask2D(mask=ma[::-1, ::-1].copy(), pixel_scales=1.0),
+                             kernel=aa.Kernel2D.no_mask(values=[fl([v + 1 for v in r[::-1]]) for r in K[::-1]], pixel_scales=1.0))
     if op == "init":
+        decoy()
         try:
             c = aa.Convolver(mask=mask, kernel=kernel)
             out = ("ok", (int(c.pixels_in_mask), int(c.pixels_in_blurring_mask), [[bool(b) for b in r] for r in c.blurring_mask]))
@@ -242,6 +245,8 @@ def run_case(inp):
     if op == "whole":
         native = [[Fraction(rng.randint(-9, 9)) * vs for _ in range(len(m[0]))] for _ in range(len(m))]
         arr = aa.Array2D.no_mask(values=[fl(r) for r in native], pixel_scales=1.0)
+        call_res(aa.Kernel2D.no_mask(values=[fl([v + 1 for v in r[::-1]]) for r in K[::-1]], pixel_scales=1.0).convolved_array_from,
+                 array=aa.Array2D.no_mask(values=[fl(r[::-1]) for r in native[::-1]], pixel_scales=1.0))     # decoy (see below)
         if inp["seed"] % 2:
             res = call_res(kernel.convolved_array_with_mask_from, array=arr.native, mask=mask)
         else:
@@ -251,6 +256,10 @@ def run_case(inp):
             res = call_res(kernel.convolved_array_from, array=arr)
         out = ("ok", [frac(x) for x in np.array(res[1].slim)]) if res[0] == "ok" else res
         return dict(base, coq=f"(KWhole {cmask(m)} {cqm(native)} {cqm(K)} {cres(out, cqv)})", out=str(out)[:300])
+    # decoy first: another mask (rotated by 180 degrees: same shape, same pixel count, footprints still inside) and another kernel
+    # of the same shape go through the library before the observed objects, so that state remembered from an earlier
+    # construction (a cache keyed by shapes / counts) shows up in this very input and the replay is self-contained
+    decoy()
     c = aa.Convolver(mask=mask, kernel=kernel)
     ints = bool(inp.get("ints"))
     img = [v * vs for v in rand_vals(rng, nun, inp["sparse"], ints)]
